@@ -14,7 +14,16 @@ RULE = ("schema-first logical documents (nested objects, arrays, arrays of objec
         "Coq specification is run on it: TextDoc.render under the gaps of the rendering must reproduce the rendering byte for byte, "
         "TextDeSpec.spec_value must equal dedoc.expected and every path's value, TextDoc.flatten / TextDeSpec.tokens must equal the "
         "implementation's tape / reader tokens of the rendering; documents with ghost {} objects (~28%) are outside TextDoc (only "
-        "expected-vs-spec_value is evaluated, on the ghost-free document); plus hand-made pairs from corpus/C02/spec_tie.case")
+        "expected-vs-spec_value is evaluated, on the ghost-free document); plus hand-made pairs from corpus/C02/spec_tie.case.  "
+        # [a_c02]
+        "ext_spec: 3000 documents generated in the full TextDoc grammar (object tails, key-value arrays, headers over arrays and objects, "
+        "`{}` , parameter blocks) x 8 layout styles x both encodings x shapes derived from them (structs incl. `remainder` and parameter names, "
+        "maps, seq / tuple, header views, Option / Property, mis-hints) x 5 entry points; oracle = the EXTRACTED TextDeSpec2.spec_value2 "
+        "(true for the slice / tape / ObjectReader paths, false for the reader paths where it fits).  "
+        "hints: 2000 documents `v <op> value  w = scalar` x every deserialize_* method (incl. char, str, bytes, byte_buf, unit, unit_struct, "
+        "newtype_struct, tuple_struct, i128, u128, identifier) with a recording visitor x 5 entry points; oracle = a Python reading of the property text; "
+        "hint_model: the same documents and hints, the FIRST deserializer step (which visit_* call with which payload) of the extracted "
+        "TextDeTape.tape_visit / TextDeStream.stream_visit against the implementation (slice path / reader path)")
 TRUSTED = ["walk_model: the extracted walks are fed the implementation's own tape (tt.parse) resp. reader tokens (tr.slice, chunking-independent by C07) of each text; Scalar::to_f64 is the extracted ScalarF64.to_f64_bits, the float casts of serde's visitors are the machine's (OCaml glue)",
            "serde's primitive Deserialize impls (u8..u64, i8..i64, f32, f64, bool, String, IgnoredAny) and serde-derive's code for "
            "jomini::text::Property<T> are used as they are (library behaviour, exercised not verified)",
@@ -26,7 +35,12 @@ TRUSTED = ["walk_model: the extracted walks are fed the implementation's own tap
            "spec_value directly.  Still Python-only: the conversion dedoc document -> TextDoc.doc (props/spectie.py to_textdoc; checked by the "
            "byte-for-byte rendering comparison), the shape/document GENERATORS, the expected value of the nested `objreader@k` cases, the "
            "classification captures_header of known finding H, max_token_len (buffer sizes).  The parameters of spec_value are instantiated "
-           "as those of the walk models (ocaml/fam_spectie.ml: Encoding.decode_*, ScalarF64.to_f64_bits, machine float casts)"]
+           "as those of the walk models (ocaml/fam_spectie.ml: Encoding.decode_*, ScalarF64.to_f64_bits, machine float casts)",
+           # [a_c02]
+           "ext_spec: the document GENERATOR and the Python renderer props/textdoc.render_with_gaps (checked byte for byte against the extracted "
+           "TextDoc.render on every document), the shape generator props/C02_ext.py (a shape that does not fit is skipped: ERR:unfit), the buffer "
+           "size bound (longest token + 2, at least 26).  hints: the expected visit of props/C02_hint.py (decimal meaning of [+-]digits within "
+           "i64 / u64, yes / no, the decoded text, raw bytes for bytes hints, f64 only on short decimals that are exact)"]
 ASSUMPTIONS = ["targets request maps as maps and sequences as sequences (`fits`): container shapes are only put on containers of the same kind; "
                "`any` only on scalars; the root target is a struct or map",
                "documents avoid the constructs that the *lexing* properties C01/C07 own and currently get wrong (findings A, D, E, F, J, K): "
@@ -188,6 +202,15 @@ def run(ctx):
     # the deserializer walks inside the Coq model: every case above against TextDeTape / TextDeStream
     walk_model(ctx, cases + fcases)
 
+    # >>> a_c02 (wave 4): the grammar beyond the core on the real code, against the extracted TextDeSpec2.spec_value2
+    # (object tails / "remainder", `{}` and arrays into maps / structs, headers, parameter blocks, key-value arrays)
+    from props import C02_ext
+    C02_ext.run(ctx)
+    # the Deserializer methods no runtime shape calls (char / str / bytes / unit / newtype / tuple_struct / i128 ...)
+    from props import C02_hint
+    C02_hint.run(ctx)
+    # <<< a_c02
+
     # scalar level: extracted Serde.text_scalar (typed hints with fall-back) against the real slice path
     from props import descalar
     ctx.correspond("scalar-hints", descalar.text_cases(ctx, ctx.scale(300, 3000)), nontrivial=nt)
@@ -206,6 +229,6 @@ def search(ctx):
 
 CLAIM = {
     "text": "every public text deserializer entry point (from_*_slice, from_*_tape, ObjectReader::deserialize, from_*_reader over a scripted Read) is run through a runtime-shape serde interpreter on generated documents x layouts x encodings x shapes and compared with an independently computed expected value; Coq: see coverage.theorems",
-    "note": "[spec_tie] The specification the walk theorems are stated over (TextDeSpec.spec_value over TextDoc documents, TextDoc.render / flatten, TextDeSpec.tokens) is extracted and run on the generated documents: the Python renderer and dedoc.expected are checked against it and the implementation's values are compared with spec_value directly (stream spec_tie, keys tie-text-*). Props/C02.v pins the scalar/struct level; Props/C02_walk.v pins the deserializer walks: for every document of the core grammar (scalars, objects of key-op-value fields, arrays, any nesting) and every shape that fits, the extracted tape walk (TextDeTape.deser_tape on flatten d) and the stream walk (TextDeStream.deser_stream on the reader's tokens of d) both return spec_value, hence agree; findings H and M are reproduced by the models as witness theorems. Outside the core grammar (object tails / 'remainder', key-value arrays, headers, parameters, ghosts, any on containers) the walks are modelled and compared with the implementation case by case (stream walk_model, incl. a 390-case hand corpus) but not proved. Props/C02_walk2.v composes the walks with the byte level (from_slice via C01_parse_render for every layout; from_reader via the reference tokenizer and C07_stream_eq_tok for every schedule and fitting capacity, on documents without parameter blocks whose bare words do not start with '?') and extends the tape walk theorem to the whole TextDoc grammar against TextDeSpec2.spec_value2 (remainder key for object tails and arrays where a map is asked for, {} as the empty object, headers into seq/tuple/String/number/enum/ignored, parameter blocks); the stream half beyond the core grammar is not proved (difference witnesses only). The stream model runs over the reader's token list (skip_container at token level).",
+    "note": "[a_c02] Props/C02_ext.v lifts the STREAM half beyond the core grammar: for every document the token reader can express (tails, key-value arrays, headers, `{}`; TextDeSpec2.sx_fields) and every shape on which the common specification spec_value2 false fits, deser_stream (tokens d) = spec_value2 false = deser_tape (flatten d) (C02_stream_path_ext_partial, C02_paths_agree_outside_headers_partial), also from the bytes of any rendering under every schedule / capacity >= need (C02_paths_agree_ext_bytes_partial); spec_value2 coincides with spec_value wherever the latter fits (C02_spec2_extends_spec_partial). spec_value2 is extracted and is the oracle of all entry points on generated full-grammar documents (stream ext_spec); the deserialize_* methods no runtime shape calls are driven by the kind de.hint against an independent oracle (stream hints); finding P-stream-i128 (i128 / u128 fields are refused by the stream path only) is recorded. [spec_tie] The specification the walk theorems are stated over (TextDeSpec.spec_value over TextDoc documents, TextDoc.render / flatten, TextDeSpec.tokens) is extracted and run on the generated documents: the Python renderer and dedoc.expected are checked against it and the implementation's values are compared with spec_value directly (stream spec_tie, keys tie-text-*). Props/C02.v pins the scalar/struct level; Props/C02_walk.v pins the deserializer walks: for every document of the core grammar (scalars, objects of key-op-value fields, arrays, any nesting) and every shape that fits, the extracted tape walk (TextDeTape.deser_tape on flatten d) and the stream walk (TextDeStream.deser_stream on the reader's tokens of d) both return spec_value, hence agree; findings H and M are reproduced by the models as witness theorems. Outside the core grammar (object tails / 'remainder', key-value arrays, headers, parameters, ghosts, any on containers) the walks are modelled and compared with the implementation case by case (stream walk_model, incl. a 390-case hand corpus) but not proved. Props/C02_walk2.v composes the walks with the byte level (from_slice via C01_parse_render for every layout; from_reader via the reference tokenizer and C07_stream_eq_tok for every schedule and fitting capacity, on documents without parameter blocks whose bare words do not start with '?') and extends the tape walk theorem to the whole TextDoc grammar against TextDeSpec2.spec_value2 (remainder key for object tails and arrays where a map is asked for, {} as the empty object, headers into seq/tuple/String/number/enum/ignored, parameter blocks); the stream half beyond the core grammar is not proved (difference witnesses only). The stream model runs over the reader's token list (skip_container at token level).",
     "technique": "machine-checked proof in Coq over an executable model + model/implementation correspondence by extraction + specification oracle on the implementation",
 }
